@@ -340,4 +340,7 @@ def run(db, chk):
                                detail="; ".join(bad[:2]), sample=(n_sc % 59 == 1), extra={"unit": uname})
         chk.extra.setdefault("paths_abandoned_at_loop_bound", 0)
         chk.extra["paths_abandoned_at_loop_bound"] += abandoned
+    chk.absorb(db, "C16", {"C16-T1"}, "C12-V4", "a graph snapshot the eroder may be run on carries the receivers, "
+               "their distances and weights of the source graph (shared with C16-T1): a stale distance makes the "
+               "stream-power factor negative", pred=lambda o: "m_receivers" in o["instance"], min_instances=3)
     chk.count_scenarios(n_sc, False)
